@@ -437,7 +437,7 @@ def ccase(c, p):
 
 PRE = """From Coq Require Import NArith List Bool Uint63.
 Import ListNotations.
-Require Import UV.C15.Model UV.C15.Doc UV.C15.Lit.
+Require Import UV.C15.Model UV.C15.Doc UV.C15.GraphF UV.C15.Lit.
 Local Open Scope uint63_scope.
 """
 KINDS = ["graph", "flame0", "flameS", "dot", "mermaid", "chrome"]
@@ -452,11 +452,27 @@ def evaluate_cases(ctx, cases, parsed, name="cases", flame_fixed=False):
         evals.append(("mismatch_" + k, "bad_indices (agree_%s%s) cases 0" % (k, arg)))
         evals.append(("violation_" + k, "bad_indices okc_%s cases 0" % k))
     docs = [(i, dd) for i, p in enumerate(parsed) for dd in p.get("docs", [])]
+    # the documents are the bulk of the literals: at most ~2.5 MB of them go to Coq (python's json judged them all)
+    budget = 2500000
+    kept = []
+    for i, dd in docs:
+        if len(dd["raw"]) <= budget:
+            kept.append((i, dd))
+            budget -= len(dd["raw"])
+    ctx.extra["chrome_documents_not_sent_to_coq"] = len(docs) - len(kept)
+    docs = kept
     defs += "Definition docs : list dcase := [\n%s\n].\n" % ";\n".join(
         "mk_dcase (nth %d%%nat cases (mk_case [] [] [] [] 0%%N [] [] [] [] [] [] true [] [])) [%s] %s %s %s %s %s" % (
             i, "; ".join("cm %d %s" % (t, cb(cmm)) for t, cmm in dd["comms"]), cb(dd["version"]), cb(dd["date"]),
             "None" if dd["cmdline"] is None else "(Some %s)" % cb(dd["cmdline"]),
             "true" if dd["noev"] else "false", cb(dd["raw"])) for i, dd in docs)
+    fcs = [(i, p["graphf"]) for i, p in enumerate(parsed) if p.get("graphf") is not None]
+    defs += "Definition fcases : list fcase := [\n%s\n].\n" % ";\n".join(
+        "mk_fcase (nth %d%%nat cases (mk_case [] [] [] [] 0%%N [] [] [] [] [] [] true [] [])) %s %s" % (
+            i, cb(func), "None" if rows is None else "(Some [%s])" % "; ".join(crow(r) for r in rows))
+        for i, (func, rows) in fcs)
+    evals.append(("mismatch_graphf", "bad_indices agree_graphf fcases 0"))
+    evals.append(("violation_graphf", "bad_indices okc_graphf fcases 0"))
     # the validator itself against python's json on damaged documents (single-byte edits of real outputs)
     muts = []
     mrng = __import__("random").Random(ctx.subseed("muts"))
@@ -485,6 +501,8 @@ def evaluate_cases(ctx, cases, parsed, name="cases", flame_fixed=False):
         return None
     res = {k: coq.parse_nat_list(v) for k, v in res.items()}
     res["muts"] = muts
+    res["graphf_owner"] = [i for i, _ in fcs]
+    res["graphf_list"] = [f for _, f in fcs]
     res["doc_owner"] = [i for i, _ in docs]
     res["doc_list"] = [dd for _, dd in docs]
     return res
@@ -533,6 +551,23 @@ def run_case(objdir, c, d, cmdline=b"prog arg", with_cmdline=True):
          "meta": meta, "doc": doc, "raw_chrome": o["chrome"]}
     p["docs"] = [doc_inputs(c, o["chrome"], cmdline, with_cmdline)]
     return p
+
+
+def run_graphf(objdir, c, d, rng, func=None):
+    """`uftrace graph FUNC` on the directory written by run_case -> (func, rows | None)"""
+    cands = [n for n in set(c["syms"]) if not n.startswith(b"-")]
+    if func is None:
+        func = rng.choice(sorted(cands)) if (cands and rng.random() < 0.9) else b"no_such_function"
+    rc, out, err = uft(objdir, ["graph", "--no-pager", "-d", d, func])
+    if rc != 0:
+        raise ParseError("uftrace graph FUNC exited with %d: %r" % (rc, err[-300:]))
+    if b"cannot find graph" in out:
+        return func, None
+    if b"# TOTAL TIME" not in out:
+        if b"BACKTRACE" not in out:
+            raise ParseError("graph FUNC printed neither a graph nor a backtrace: %r" % out[:200])
+        return func, []
+    return func, parse_graph(out)
 
 
 def run_noev(objdir, c, d, rng, cmdline=b"prog arg", with_cmdline=True):
@@ -851,6 +886,22 @@ def verdict(ctx, cases, parsed, res, flame_fixed=False):
                               {"kind": "dir", "output": k, "correspondence": "C15.Model vs uftrace " + k,
                                "case": case_json(cases[i], parsed[i])}, False)
                 break
+    # `uftrace graph FUNC`
+    for j in res.get("violation_graphf", [])[:2]:
+        anyviol = True
+        i = res["graphf_owner"][j]
+        ctx.violation("C15 violated: `uftrace graph FUNC` does not give the counts and times of the calls below FUNC",
+                      {"kind": "dir", "output": "graphf", "func": res["graphf_list"][j][0].hex(),
+                       "case": case_json(cases[i], parsed[i])}, True)
+    if not anyviol and res.get("mismatch_graphf"):
+        j = res["mismatch_graphf"][0]
+        i = res["graphf_owner"][j]
+        ctx.violation("model and implementation disagree on `uftrace graph FUNC` (%d cases); the property checker accepts "
+                      "every explored output" % len(res["mismatch_graphf"]),
+                      {"kind": "dir", "output": "graphf", "func": res["graphf_list"][j][0].hex(),
+                       "case": case_json(cases[i], parsed[i])}, False)
+        anyviol = True
+    ctx.extra["graph_func_cases"] = len(res.get("graphf_list", []))
     # the whole --chrome document: Coq's JSON validator on the implementation's bytes, cross-checked with python's
     for j in res.get("violation_doc", [])[:2]:
         anyviol = True
@@ -998,6 +1049,14 @@ def run(ctx):
             ctx.violation("an export of a well-formed trace could not be parsed back: %s" % e,
                           {"kind": "dir", "case": case_json(c)}, True)
             continue
+        if i % 3 != 2:
+            try:
+                p["graphf"] = run_graphf(objdir, c, d, ctx.rng)
+                extra_tags.append("graph-func:" + ("not-called" if p["graphf"][1] is None else
+                                                   "zero-time-leaf" if p["graphf"][1] == [] else "called"))
+            except ParseError as e:
+                ctx.violation("`uftrace graph FUNC` output could not be parsed back: %s" % e,
+                              {"kind": "dir", "case": case_json(c)}, True)
         if i % 4 == 0:
             try:
                 p["docs"].append(run_noev(objdir, c, d, ctx.rng, **kw))
@@ -1026,6 +1085,8 @@ def replay(ctx, obj):
         c = case_from_json(obj["case"])
         flame_fixed = not witnesses(ctx, objdir, hexe)["flame-count-truncated"]
         p = run_case(objdir, c, os.path.join(ctx.scratch, "dir"))
+        if obj.get("func") is not None:
+            p["graphf"] = run_graphf(objdir, c, os.path.join(ctx.scratch, "dir"), ctx.rng, bytes.fromhex(obj["func"]))
         ctx.case(key="replay", sample=case_json(c, p))
         res = evaluate_cases(ctx, [c], [p], flame_fixed=flame_fixed)
         ctx.log("replayed directory case:", res)
